@@ -2,6 +2,7 @@ package main
 
 import (
 	"fmt"
+	"sort"
 	"go/constant"
 	"go/types"
 	"math/big"
@@ -170,6 +171,10 @@ func (m *Machine) callFunc(st *State, fr *Frame, instr ssa.Instruction, fn *ssa.
 			return
 		}
 	}
+	if fn.Blocks != nil && m.isGhostFn(fn) && m.isRecursive(fn) {
+		finish(m.recCall(st, fn, args))
+		return
+	}
 	rn := relName(fn)
 	fc := m.P.Contracts.Funcs[rn]
 	useContract := fc != nil && !fc.Inline && fn != m.fn
@@ -278,6 +283,9 @@ func (m *Machine) builtin(st *State, fr *Frame, instr ssa.Instruction, b *ssa.Bu
 		ch := args[0].(*Term)
 		ord := fmt.Sprint(m.ordinal(fr.fn, instr, ""))
 		m.oblige(st, fr, "safe.close", ord, c.And(c.Neq(ch, c.Int(0)), c.Not(m.chanClosed(st, ch))), m.safeTags(), "close of nil or closed channel")
+		if ct, ok := cc.Args[0].Type().Underlying().(*types.Chan); ok && strings.Contains(m.chanInvOf(ct.Elem()), "neverclosed") {
+			m.oblige(st, fr, "chan.neverclosed", ord, c.F, m.safeTags(), "channels of "+m.ts.typeName(ct.Elem())+" are never closed (channel invariant)")
+		}
 		m.setClosed(st, ch)
 		m.addEvent(st, "close", []Value{ch}, nil)
 		return nil
@@ -332,7 +340,7 @@ type pureResult struct {
 
 // pureCall symbolically evaluates fn (ghost / spec code) on all paths and merges the results.
 func (m *Machine) pureCall(st *State, fn *ssa.Function, args []Value, fvals []Value) []Value {
-	sub := &State{pure: true, opaque: st.opaque, evBase: st.evBase, ghostCells: st.ghostCells, guardSnaps: st.guardSnaps, heap: cloneHeap(st.heap), locks: st.locks, chanQ: map[int][]chanQuery{}, chanVer: st.chanVer, definable: st.definable, defs: st.defs}
+	sub := &State{pure: true, opaque: st.opaque, evBase: st.evBase, ghostCells: st.ghostCells, guardSnaps: st.guardSnaps, recDone: st.recDone, heap: cloneHeap(st.heap), locks: st.locks, chanQ: map[int][]chanQuery{}, chanVer: st.chanVer, definable: st.definable, defs: st.defs}
 	sub.pc = append([]*Term{}, st.pc...)
 	sub.events = st.events
 	sub.fresh = make([]*freshObj, len(st.fresh))
@@ -920,4 +928,126 @@ func (m *Machine) opaqueEvValue(st *State, fn *ssa.Function, kind, name string, 
 		terms = append(terms, m.ctx.App(fmt.Sprintf("%s!%d!%s.%s", kind, st.opaque, name, l.path), l.sort, k, a))
 	}
 	return m.ts.Unflatten(rt, &terms)
+}
+
+// ---------- recursive specification functions ("fuel 1") ----------
+
+func (m *Machine) isRecursive(fn *ssa.Function) bool {
+	if r, ok := m.recCache[fn]; ok {
+		return r
+	}
+	rec := false
+	for _, b := range fn.Blocks {
+		for _, ins := range b.Instrs {
+			if c, ok := ins.(ssa.CallInstruction); ok {
+				if c.Common().StaticCallee() == fn {
+					rec = true
+				}
+			}
+		}
+	}
+	m.recCache[fn] = rec
+	return rec
+}
+
+// recCall: a recursive spec function is an uninterpreted function of its arguments and of the
+// memories it reads; its defining equation is instantiated once for every application that the
+// verifier meets outside an unfolding (no matching loops, no reliance on solver induction).
+func (m *Machine) recCall(st *State, fn *ssa.Function, args []Value) []Value {
+	name := "rec." + fn.Name()
+	// which memories does the body read? (dry run, cached)
+	reads, ok := m.recReads[fn]
+	if !ok {
+		m.recReads[fn] = nil // guards against re-entry
+		m.readTrack = map[string]bool{}
+		m.recDepth[fn]++
+		func() {
+			defer func() { recover() }()
+			sub := st.clone()
+			sub.pure = true
+			m.pureCallBody(sub, fn, args)
+		}()
+		m.recDepth[fn]--
+		for n := range m.readTrack {
+			reads = append(reads, n)
+		}
+		sort.Strings(reads)
+		m.readTrack = nil
+		m.recReads[fn] = reads
+	}
+	var key []*Term
+	for i, a := range args {
+		t := fn.Params[i].Type()
+		if isSeqType(t) {
+			panic(unsupported("recursive spec function with a ghost-typed parameter"))
+		}
+		key = append(key, m.ts.Flatten(t, a)...)
+	}
+	for _, n := range reads {
+		if h, ok := st.heap[n]; ok {
+			key = append(key, h)
+		} else if srt, ok := m.memSortOf[n]; ok {
+			key = append(key, m.heapGet(st, n, srt))
+		}
+	}
+	rt := fn.Signature.Results().At(0).Type()
+	var app Value
+	var sv *SeqV
+	if isSeqType(rt) {
+		n := m.ctx.App(name+".len", m.ts.Idx(), key...)
+		sv = &SeqV{N: n, At: func(i *Term) *Term { return m.ctx.App(name+".at", m.ts.ByteSort(), append(append([]*Term{}, key...), i)...) }}
+		app = sv
+	} else {
+		var terms []*Term
+		for _, l := range m.ts.Leaves(rt) {
+			terms = append(terms, m.ctx.App(name+"."+l.path, l.sort, key...))
+		}
+		app = m.ts.Unflatten(rt, &terms)
+	}
+	if m.recDepth[fn] > 0 {
+		return []Value{app}
+	}
+	// unfold once
+	inst := fmt.Sprintf("%s|%v", name, termIDs(key))
+	if st.recDone[inst] {
+		return []Value{app}
+	}
+	nd := make(map[string]bool, len(st.recDone)+1)
+	for k := range st.recDone {
+		nd[k] = true
+	}
+	nd[inst] = true
+	st.recDone = nd
+	m.recDepth[fn]++
+	body := m.pureCallBody(st, fn, args)[0]
+	m.recDepth[fn]--
+	c := m.ctx
+	if sv != nil {
+		b := body.(*SeqV)
+		i := c.Bound("ru", m.ts.Idx())
+		st.assume(c.And(c.Eq(sv.N, b.N), m.idxLe(m.ts.IdxConst(0), sv.N),
+			c.Forall([]*Term{i}, c.Implies(m.inBounds(i, sv.N), c.Eq(sv.At(i), b.At(i))))))
+	} else {
+		at := m.ts.Flatten(rt, app)
+		bt := m.ts.Flatten(rt, body)
+		for k := range at {
+			st.assume(c.Eq(at[k], bt[k]))
+		}
+	}
+	return []Value{app}
+}
+
+func termIDs(ts []*Term) []int {
+	out := make([]int, len(ts))
+	for i, t := range ts {
+		out[i] = t.id
+	}
+	return out
+}
+
+// pureCallBody evaluates the body of fn (without the recursion interception at this level).
+func (m *Machine) pureCallBody(st *State, fn *ssa.Function, args []Value) []Value {
+	m.bodyOf = fn
+	defer func() { m.bodyOf = nil }()
+	return m.pureCall(st, fn, args, nil)
 }
